@@ -47,6 +47,22 @@ func electionSpec(c *pbt.C) *sim.Spec {
 		spec.Delegs = d
 		c.Class("equal-weights")
 	}
+	// pillars nobody backs (weight exactly zero): registered and active all the same
+	if np >= 2 && c.Weighted("el.unbacked", 2, 1) == 1 {
+		k := c.Int("el.unbackedN", 1, (np+1)/2)
+		unbacked := map[string]bool{}
+		for i := 0; i < k; i++ {
+			unbacked[spec.Pillars[(i*3+1)%np].Name] = true
+		}
+		var d []sim.DelegSpec
+		for _, x := range spec.Delegs {
+			if !unbacked[x.Pillar] {
+				d = append(d, x)
+			}
+		}
+		spec.Delegs = d
+		c.Class("pillars-without-backers")
+	}
 	c.Class(fmt.Sprintf("pillars-%s", map[bool]string{true: "<=30", false: ">30"}[np <= 30]))
 	return spec
 }
@@ -166,7 +182,18 @@ func TestC05Election(t *testing.T) {
 			}
 		}
 		checkSchedule(c, b, permuteTicks(c, ticks, "perm.b"), "follower after batch sync")
-		// restart with a cold consensus cache
+		// restart on the consensus database (elections and period points are read back from storage) ...
+		if c.Bool("restart.warmFirst") {
+			nb, err := b.Restart(true)
+			if err != nil {
+				c.Failf("C05/follower", "restart failed: %v", err)
+			}
+			h.W.Replace(b, nb)
+			b = nb
+			checkSchedule(c, b, permuteTicks(c, ticks, "perm.w"), "follower after restart (consensus database kept)")
+			c.Class("restart-on-kept-consensus-database")
+		}
+		// ... and with a cold consensus cache
 		nb, err := b.Restart(false)
 		if err != nil {
 			c.Failf("C05/follower", "restart failed: %v", err)
